@@ -516,7 +516,7 @@ def show_2d(
     if kwargs.pop("combine_images", False):
         if nrows > 1:
             raise ValueError()
-        fig, axs = _show_2d_combined(grid[0], figax=figax, **kwargs)  # TODO pass args here
+        fig, axs = _show_2d_combined(grid[0], norm=norm, figax=figax, **kwargs)  # TODO pass args here
     else:
         normalized_args = _normalize_show_args_to_grid(
             shape=(nrows, ncols),
